@@ -276,8 +276,9 @@ def oracle(cases, lookback=5):
         def fail(k, sig, what):
             nonlocal failed
             if c.get("witness_of") == sig and sig in WITNESS_SIGS:
+                # a corpus witness of an OPEN finding: counted, and reported like every other oracle failure — it is
+                # matched against known_findings.jsonl by its signature (KNOWN-FINDING line), never silently excused
                 st["witnesses_reproduced"][sig] = st["witnesses_reproduced"].get(sig, 0) + 1
-                return False
             failed = True
             fails.append({"kind": "oracle", "signature": sig, "what": f"{c['id']} step {k} `{c['ops'][k]}`: {what}",
                           "replay_body": case_text(c, k, f"oracle: {sig}: {what}"), "case": c, "step": k})
